@@ -519,8 +519,13 @@ def check(res, tier, replay=None):
                     types |= set(tab["pvtType"])
             types |= {1, 2, 3, 4, 6}
 
+            # the oracle recomputes the rows with the DOCUMENTED event values and tracking modes (pinned
+            # Spec/EventValues.lean, Spec/TrackModes.lean): a changed tracking mode in a setup.c shows up as
+            # a concrete timeline (seeded C08-7: the kernel channel tracked ACTIVE instead of ANY)
+            doc_tables = emu_props.load_doc_tables(tables)
+
             def oracle(sysd, events, itl):
-                p = emu_props.oracle_views(sysd, events, tables, itl)
+                p = emu_props.oracle_views(sysd, events, doc_tables, itl)
                 if p is None:
                     return []
                 return list(p) + list(emu_props.oracle_cpu_rows(sysd, itl))
